@@ -25,7 +25,7 @@ LEVEL_TEXT = ('Proved in Lean on the whole render function of the pipeline model
               'to the code in text mode by correspondence over an exhaustive alphabet enumeration plus part-list texts, and judged on the '
               'implementation by a constructive reference; the bytes clause of PageTextTemplateFile is judged on files in several encodings.')
 LEVEL_NOTE = ('D-20b (character entities inside a ${...} expression were decoded in text mode too) was repaired in /repo (fix: 8a4f2a3; TCfg.decodeInterp in the model: C20_render_text_expr_text needs no hypothesis about "&" any more). Trusted: Lean kernel; the pipeline model (validated by correspondence in text mode). Interpretation I-2: CR/CRLF are '
-              'normalised to LF in text mode too (documented for every non-XML content type); a text that begins with "<?xml" is sniffed as text/xml and keeps them: with a carriage return it is outside the model and judged by the oracle only. The D-20a defect (a text template '
+              'normalised to LF in text mode too (documented for every non-XML content type); a text that begins with "<?xml" is sniffed as text/xml and keeps them (textBody in the model; the theorems are stated for it). The D-20a defect (a text template '
               'starting with "<" was parsed as markup) was repaired in /repo (fix: cf315bd).')
 RULE = ('(a) every string up to length 5 (quick: 4) over {<, >, &, $, {, }, a, ", newline, é, /, ?, ${x}}; (b) part-list texts: literal runs rich in markup / TAL-looking attributes / PIs / entities / $ runs '
         'and ${expr} parts with brace- and quote-rich expressions x bindings holding markup; (c) file templates in utf-8 with and '
@@ -135,9 +135,6 @@ def correspondence(ctx):
     for _ in range(ctx.budget(600, 10000)):
         s = ''.join(ctx.rng.choice(LITS + ['${x}', '${y}', '${', '}', '$']) for _ in range(ctx.rng.randint(1, 6)))
         cases.append({'src': s, 'vars': VARS, 'objs': [], 'cfg': {'text_mode': True}})
-    # outside the model: a text template that begins with '<?xml' and holds a carriage return (the code keeps its line ends, the
-    # model of text mode always normalises) - judged by the oracle only
-    cases = [c for c in cases if not (c['src'].startswith('<?xml') and '\r' in c['src'])]
     pipeline.run_cases(ctx, cases, what='text mode')
 
 
